@@ -5,6 +5,7 @@ import (
 	"encoding/json"
 	"fmt"
 	"math/big"
+	"math/bits"
 	"math/rand"
 	"os"
 	"path/filepath"
@@ -536,15 +537,34 @@ func c15ProvisionIntake(c *vk.Ctx) int {
 						os.WriteFile(f, pki.PEMCRL(crlBytes, false), 0o644)
 						w.Cfg.CRLFiles = []string{f}
 					}
+					// "by the time provisioning returns": the first pass of the ticker goroutine is kept from starting (parked at its
+					// first hook) in every other case, so that nothing but Provision itself can have brought the list into force
+					held := bits.OnesCount(uint(n))%2 == 1
+					release := make(chan struct{})
+					if held {
+						w.NoInitialPassWait = true
+						world.SetHandler(func(site string, kv ...any) {
+							if site == "crl.update.enter" && len(kv) >= 2 {
+								if forced, _ := kv[1].(bool); !forced {
+									<-release
+								}
+							}
+						})
+					}
 					err = w.Provision()
 					n++
-					c.Eval(fmt.Sprintf("intake|%s|%s|%s|%s", src, fetch, sig, storage))
-					rep := map[string]any{"source": src, "fetch": fetch, "sig": sig, "storage": storage}
+					c.Eval(fmt.Sprintf("intake|%s|%s|%s|%s|held=%v", src, fetch, sig, storage, held))
+					rep := map[string]any{"source": src, "fetch": fetch, "sig": sig, "storage": storage, "first_pass_held": held}
 					if err != nil {
 						c.Violation(fmt.Sprintf("provision-fails-with-acceptable-configured-crl:src=%s:fetch=%s", src, fetch), "Provision failed although the configured CRL is acceptable: "+err.Error(), rep)
 					} else if r := w.Handshake(pki.Chain(leaf.Cert, ca)); r.Verdict != "revoked" {
 						c.Violation(fmt.Sprintf("configured-crl-not-in-force-after-provision:src=%s:fetch=%s", src, fetch),
 							fmt.Sprintf("Provision returned but the certificate listed in the configured CRL is %s", r.Verdict), rep)
+					}
+					if held {
+						close(release)
+						world.SetHandler(nil)
+						time.Sleep(20 * time.Millisecond)
 					}
 					w.Destroy()
 				}
